@@ -139,7 +139,15 @@ pub fn run(cx: &mut Ctx) {
             // layout variants: CRLF, tabs, comments with multi-byte characters, no final newline
             let style = if i % 3 == 0 { Style::plain() } else { Style::random(&mut rng) };
             match prepare(cx, g, &mut rng, &style) {
-                Ok(p) => p.text().to_string(),
+                Ok(p) => {
+                    if i % 4 == 1 {
+                        // a near-miss edit of the AST: errors of the analysis (type, arity, scope,
+                        // signature errors) located at an inner expression, often spanning lines
+                        let (q, _) = crate::mutate_ast::mutate(&p.prog, &mut rng);
+                        one_text(cx, &render(&q, &style).text, i);
+                    }
+                    p.text().to_string()
+                }
                 Err(_) => continue,
             }
         };
